@@ -67,7 +67,7 @@ MANIFEST = {
     "store[pi := callee(store[pi])] (writeback_lens, by induction on the number of subscripts with the lens laws put-get/get-put/"
     "put-put/append proved for all paths), every non-overlapping part of the store is unchanged (writeback_frame), the caller reads "
     "the callee's result at pi (writeback_observed); assignment to a place gives store[pi := v] (assign_lens, wire level: wire_assign; copyable array element via classical set: assign_set_lens); for EVERY well-typed path (fields, tuple indices, subscripts, any nesting) and conforming store the wire-level SSA op list itself - tuple unpack/pack plumbing of DFContainer, itousize, borrow/return, Call with all wiring - computes the lens update (wire_writeback: DFContainer get/set characterised for all types by mutual induction, forward simulation of the cascade); k borrowed parameters give k extra outputs after the results in parameter "
-    "order and _update_inout_ports consumes exactly those (inout_ports_count_order). Tied to /repo every run: for generated typed "
+    "order and _update_inout_ports consumes exactly those (inout_ports_count_order, inout_port_of_place: also when earlier borrowed arguments are temporaries). Tied to /repo every run: for generated typed "
     "paths the REAL compiler's op list and wiring is extracted from the Hugr, compared with the model's wire-level emission, and "
     "interpreted (Python and Lean) against the lens and against the place-level sequence; FuncDefn signatures and Call wiring are "
     "read from lowered probes.",
@@ -409,7 +409,9 @@ def sig_case(rng, nparams=None):
     k = nparams or rng.randrange(1, 6)
     params = []
     for j in range(k):
-        kind = rng.choice(["borrowed", "borrowed", "owned", "copy"])
+        # "bint": a borrowed place of type array[int, 2]; "btmp": a borrowed parameter whose ARGUMENT is a temporary `array(0, 0)`
+        # (not a place: it takes its output port, nothing is bound) — same type as "bint", so a wrong port goes unnoticed by types
+        kind = rng.choice(["borrowed", "borrowed", "owned", "copy", "bint", "btmp", "btmp"])
         params.append(kind)
     nres = rng.randrange(0, 3)
     return params, nres
@@ -421,6 +423,8 @@ def sig_src(params, nres, perm):
     def pty(j, kind):
         if kind == "copy":
             return "int"
+        if kind in ("bint", "btmp"):
+            return "array[int, 2]"
         return f"array[qubit, {j + 1}]" + (" @owned" if kind == "owned" else "")
     rty = "None" if nres == 0 else ("int" if nres == 1 else "tuple[" + ", ".join(["int"] * nres) + "]")
     g_params = ", ".join(f"p{j}: {pty(j, kind)}" for j, kind in enumerate(params))
@@ -428,8 +432,8 @@ def sig_src(params, nres, perm):
     # the caller declares its own parameters in index order, calls g(p_perm...) — only legal if types line up, so the caller's
     # parameter j has the type of g's parameter j and the call passes them in g's order; the permutation is applied to the
     # caller's DECLARATION order instead
-    decl = ", ".join(f"p{j}: {pty(j, params[j])}" for j in perm)
-    args = ", ".join(f"p{j}" for j in range(len(params)))
+    decl = ", ".join(f"p{j}: {pty(j, params[j])}" for j in perm if params[j] != "btmp")
+    args = ", ".join(("array(0, 0)" if params[j] == "btmp" else f"p{j}") for j in range(len(params)))
     src += f"@guppy\ndef caller({decl}) -> {rty}:\n    return g({args})\n"
     return src
 
@@ -774,6 +778,30 @@ def e2e(ctx):
                 inputs.append(tuple([0] * (m - 1) + [rng.choice([-1, 3])]))
             skipped += E.check_program(ctx, f"place:{variant}", src, inputs, f"input:e2e cal({expr}) [{variant}] :: {src}",
                                        nontrivial=len(ks) >= 2 or "sub" in ks)
+    # borrowed parameters whose argument is a TEMPORARY (array display, call result) mixed with places: every place must get
+    # the value handed back for ITS parameter (seed C07-m6)
+    HDR = ("@guppy\ndef two(a: array[int, 2], b: array[int, 2]) -> None:\n    b[0] = a[0] + 100\n    a[1] = a[1] + 50\n\n"
+           "@guppy\ndef three(a: array[int, 2], b: array[int, 2], c: array[int, 2]) -> int:\n    c[1] = a[0] + b[1]\n    b[0] = b[0] + 1\n"
+           "    a[0] = a[0] + 7\n    return a[1]\n\n"
+           "@guppy\ndef fresh(k: int) -> array[int, 2]:\n    return array(k, k + 1)\n\n")
+    for _ in range(6 if ctx.quick else 40):
+        body = ["    xs = array(1, 2)", "    ys = array(3, 4)", "    xss = array(array(11, 12), array(13, 14), array(15, 16))", "    acc = 0"]
+        for _k in range(rng.randrange(1, 4)):
+            arity = rng.choice([2, 3])
+            places = ["xs", "ys", rng.choice(["xss[i]", "xss[1]", "xss[j]"])]
+            rng.shuffle(places)
+            args = []
+            for _a in range(arity):
+                if rng.random() < 0.45 or not places:
+                    args.append(rng.choice([f"array({rng.randrange(20, 30)}, {rng.randrange(30, 40)})", f"fresh({rng.randrange(40, 60)})"]))
+                else:
+                    args.append(places.pop())
+            if all(not a.startswith(("array(", "fresh(")) for a in args):
+                args[0] = "array(7, 8)"
+            body.append(f"    two({', '.join(args)})" if arity == 2 else f"    acc = acc * 3 + three({', '.join(args)})")
+        src = (HDR + "@guppy\ndef main(i: int, j: int) -> tuple[int, array[int, 2], array[int, 2], array[array[int, 2], 3]]:\n"
+               + "\n".join(body) + "\n    return acc, xs, ys, xss\n")
+        skipped += E.check_program(ctx, "temp-args", src, [(0, 2), (2, 0), (1, 1), (0, 3), (-1, 0)], f"input:e2e temp-args :: {src}")
     ctx.extra["e2e_skipped"] = skipped
     # copyable ELEMENTS lent through generic parameters (mem_swap, with_owned, user generics): classical get ... set write-back
     E.copyable_lend(ctx)
@@ -882,7 +910,8 @@ def tie(ctx):
             sig_runs.append((params, nres, perm, src, (g_in, g_out, c_in, c_out, prog), None))
         except Exception as e:  # noqa: BLE001
             sig_runs.append((params, nres, perm, src, None, e))
-        lines.append("(sig (" + " ".join(f"({j} {1 if k == 'borrowed' else 0})" for j, k in enumerate(params)) + ") (" +
+        lines.append("(sig (" + " ".join(f"({j} {1 if k in ('borrowed', 'bint', 'btmp') else 0} {0 if k == 'btmp' else 1})"
+                                         for j, k in enumerate(params)) + ") (" +
                      " ".join(str(100 + r) for r in range(nres)) + "))")
 
     # ---- assignment probes (`pi = v`, StmtCompiler._assign_place): paths ending in a struct field of affine type
@@ -1041,9 +1070,11 @@ def tie(ctx):
     base = 5 * len(cases)
     for k, (params, nres, perm, src, got, err) in enumerate(sig_runs):
         model = reps[base + k]
-        nb = sum(1 for x in params if x == "borrowed")
+        is_b = lambda kd: kd in ("borrowed", "bint", "btmp")  # noqa: E731
+        nb = sum(1 for x in params if is_b(x))
+        decl = [j for j in perm if params[j] != "btmp"]
         case = {"kind": "sig", "params": params, "nres": nres, "perm": perm}
-        ctx.count(case, nontrivial=nb >= 2, kind=f"sig:borrowed{nb}")
+        ctx.count(case, nontrivial=nb >= 2, kind=f"sig:borrowed{nb}" + (":tmp" if "btmp" in params else ""))
         key = f"input:sig params={params} nres={nres} perm={perm}"
         if got is None:
             ctx.violation(key, f"signature probe is not compiled: {type(err).__name__}: {err}", {"case": case, "source": src, "error": repr(err)})
@@ -1052,16 +1083,16 @@ def tie(ctx):
         # oracle: outputs = declared results, then the borrowed inputs in input order
         import hugr.std.int as hint
         INT = str(hint.int_t(6))
-        want_g_out = [INT] * nres + [g_in[j] for j, kd in enumerate(params) if kd == "borrowed"]
+        want_g_out = [INT] * nres + [g_in[j] for j, kd in enumerate(params) if is_b(kd)]
         if g_out != want_g_out:
             ctx.violation(key, f"lowered signature of g{tuple(params)}: outputs {g_out}, expected results then borrowed inputs in order {want_g_out}",
                           {"case": case, "source": src, "real": g_out, "oracle": want_g_out})
-        want_c_out = [INT] * nres + [c_in[pos] for pos, j in enumerate(perm) if params[j] == "borrowed"]
+        want_c_out = [INT] * nres + [c_in[pos] for pos, j in enumerate(decl) if params[j] in ("borrowed", "bint")]
         if c_out != want_c_out:
             ctx.violation(key + " caller", f"lowered signature of caller: outputs {c_out}, expected {want_c_out}",
                           {"case": case, "source": src, "real": c_out, "oracle": want_c_out})
         # model: names of the extra outputs in order
-        exp_model = "ok (" + " ".join([f"r{100 + r}" for r in range(nres)] + [f"b{j}" for j, kd in enumerate(params) if kd == "borrowed"]) + ")"
+        exp_model = "ok (" + " ".join([f"r{100 + r}" for r in range(nres)] + [f"b{j}" for j, kd in enumerate(params) if is_b(kd)]) + ")"
         if not model.startswith(exp_model + " "):
             ctx.broke(f"Lean hugrOutputs for {params}/{nres}: {model}, expected prefix {exp_model}")
         # Call wiring in the caller: the caller's output for its borrowed parameter (declared at position pos, = g's parameter j)
@@ -1086,15 +1117,16 @@ def tie(ctx):
             idx, (nm, ps_, args, nout) = calls[0]
             start = n_in + sum(i[3] for i in prog[1][:idx])
             # arguments: g's parameter j is the caller's input at position perm.index(j) (comptime-free probes)
-            want_args = [perm.index(j) for j in range(len(params))]
+            want_args = [(decl.index(j) if params[j] != "btmp" else None) for j in range(len(params))]
             tail_outs = prog[2][nres:]
-            want_tail = [start + asg.get(j, -1) for pos, j in enumerate(perm) if params[j] == "borrowed"]
-            if args != want_args or nout != nres + nb:
+            want_tail = [start + asg.get(j, -1) for j in decl if params[j] in ("borrowed", "bint")]
+            args_ok = len(args) == len(want_args) and all(w is None or a == w for a, w in zip(args, want_args))
+            if not args_ok or nout != nres + nb:
                 ctx.violation(key + " call", f"Call of g in caller: args {args} nout {nout}, expected args {want_args} nout {nres + nb}",
                               {"case": case, "source": src, "extracted": sexp(prog)})
             elif tail_outs != want_tail:
                 ctx.violation(key + " wiring", f"caller returns its borrowed parameters from Call outputs {tail_outs}; "
-                              f"_update_inout_ports (k-th borrowed argument takes the k-th extra output) requires {want_tail}",
+                              f"_update_inout_ports (the k-th borrowed parameter — place or temporary — takes the k-th extra output) requires {want_tail}",
                               {"case": case, "source": src, "extracted": sexp(prog), "real": tail_outs, "oracle": want_tail})
         else:
             ctx.broke(f"T-obj: caller probe does not contain exactly one Call of g: {sexp(prog)}")
